@@ -7,6 +7,16 @@ TRUST = ("TLC 1.8 evaluates the TLA+ judge; harness/lib.py projections (real obj
          "of abstract cases are trusted; bounds as stated in the evidence file")
 
 CHECKS = {
+ "C15": dict(
+    text="Asc.tla has a producer (a grammar-driven state machine emitting one document token by token while a reference interpreter - a stack of split "
+         "parents and the last point - maintains the table the document denotes) and a consumer (the recursive-descent parser transcribed with its flag / "
+         "current / root and bracket consumption, followed by the pre-order walk). TLC checks on every document the producer can emit within the bounds "
+         "that the parser yields exactly the reference table (Faithful), rejects every proper prefix (RejectsTruncated) and every single-point corruption "
+         "(RejectsCorrupt), and rejects two named deviations of the parser (split bracket not consumed; leading empty alternative not recognised). The same "
+         "producer generates the documents that are rendered (whitespace, number spellings, markers) and converted by the real library through from_stream / "
+         "convert / __call__, complete, truncated at every token and corrupted at every point; outcomes are judged by TLC against the reference interpreter; "
+         "scaled documents (5e3-5e4 points per branch, 50-1200 nested splits) are judged against closed-form tables",
+    design="4/C15", technique="TLA+ producer/consumer specification (grammar machine + transcribed parser) model-checked exhaustively; TLC-generated documents, truncations and corruptions replayed into the code; TLC-judged outcomes"),
  "C19": dict(
     text="Population.tla models the containers (LazyLoadingTrees, NestTrees, ChainTrees, Population, Populations) as a heap of objects with per-container "
          "cache slots, per-file read counters and the sets of requested / probe-eligible files; every operation is an action. TLC explores every history up "
